@@ -58,6 +58,14 @@ fn mk_attrs(ul: usize, flags: u64) -> FaceAttrs {
             5 => FaceAttrs::UNDERLINE_DASHED,
             _ => FaceAttrs::EMPTY,
         };
+    // underline bit patterns 6 / 7 exist only through the raw `|=` (4|2, 5|2)
+    if ul == 6 {
+        a = FaceAttrs::UNDERLINE_DOTTED;
+        a |= FaceAttrs::UNDERLINE_DOUBLE;
+    } else if ul == 7 {
+        a = FaceAttrs::UNDERLINE_DASHED;
+        a |= FaceAttrs::UNDERLINE_DOUBLE;
+    }
     for (i, f) in [FaceAttrs::BOLD, FaceAttrs::ITALIC, FaceAttrs::BLINK, FaceAttrs::REVERSE, FaceAttrs::STRIKE]
         .iter()
         .enumerate()
@@ -329,11 +337,20 @@ pub fn run(input: &Value) -> Case {
             let cuts2 = cuts.clone();
             let cells = catch(move || {
                 let mut rec = Recorder { face: f0, wraps: false, cells: vec![] };
+                let mut short = false;
                 {
                     let mut w = rec.by_ref().tty_writer();
                     for c in chunks(&b2, &cuts2) {
-                        let _ = w.write(c);
+                        // Write::write must report the whole chunk as consumed (a short count would make
+                        // write_all re-send bytes): a wrong count is made visible as an extra cell
+                        match w.write(c) {
+                            Ok(n) if n == c.len() => {}
+                            _ => short = true,
+                        }
                     }
+                }
+                if short {
+                    rec.cells.push((0x11_0002, Face::default()));
                 }
                 rec.cells
             })
@@ -341,8 +358,8 @@ pub fn run(input: &Value) -> Case {
             j["impl"] = json!(cells.iter().map(|(c, f)| json!([c, j_face(f)])).collect::<Vec<_>>());
             let nsgr = input["hist"].as_array().map(|a| a.iter().filter(|h| h["sgr"].is_string()).count()).unwrap_or(0);
             tags.push(format!("sgr_seqs={}", nsgr.min(10)));
-            if input["known_class"].is_array() {
-                tags.push("known_class".into());
+            if input["inexpressible"].as_bool().unwrap_or(false) || input["known_class"].is_array() {
+                tags.push("inexpressible-param".into());
             }
             if input["malformed"].as_bool().unwrap_or(false) {
                 tags.push("malformed".into());
@@ -359,6 +376,51 @@ pub fn run(input: &Value) -> Case {
                 json: j,
                 tags,
                 nontrivial: nsgr >= 1 && !cells.is_empty(),
+            }
+        }
+        "stream" => {
+            // Face / FaceModify / Char commands through ONE encoder instance
+            let items: Vec<Value> = input["cmds"].as_array().cloned().unwrap_or_default();
+            let mut cmds: Vec<(TerminalCommand, String)> = vec![];
+            for it in &items {
+                if !it["face"].is_null() {
+                    let f = v_face(&it["face"]);
+                    cmds.push((TerminalCommand::Face(f), format!("(CmdFace {})", c_face(&f))));
+                } else if !it["m"].is_null() {
+                    let m = v_modify(&it["m"]);
+                    cmds.push((TerminalCommand::FaceModify(m), format!("(CmdFaceModify {})", c_modify(&m))));
+                } else {
+                    let c = char::from_u32(it["c"].as_u64().unwrap_or(97) as u32).unwrap_or('a');
+                    cmds.push((TerminalCommand::Char(c), format!("(CmdChar {})", c as u32)));
+                }
+            }
+            let ccmds: Vec<String> = cmds.iter().map(|c| c.1.clone()).collect();
+            let run_cmds: Vec<TerminalCommand> = cmds.into_iter().map(|c| c.0).collect();
+            let cuts2 = cuts.clone();
+            let r = catch(move || {
+                let caps = TerminalCaps { depth: ColorDepth::TrueColor, glyphs: false, kitty_keyboard: false };
+                let mut enc = TTYEncoder::new(caps);
+                let mut bytes = Vec::new();
+                for c in run_cmds {
+                    let _ = enc.encode(&mut bytes, c);
+                }
+                let dec = decode(&bytes, &cuts2);
+                (bytes, dec)
+            });
+            let (bytes, dec) = r.unwrap_or((vec![255], vec![]));
+            j["impl"] = json!({"bytes": String::from_utf8_lossy(&bytes), "decoded": format!("{:?}", dec)});
+            tags.push(format!("cmds={}", items.len().min(12)));
+            Case {
+                coq: format!(
+                    "KStream {} {} {} {}",
+                    clist(ccmds),
+                    clist(cuts.iter().map(|c| cnat(*c))),
+                    cbytes(&bytes),
+                    clist(dec.iter().map(c_cmd)),
+                ),
+                json: j,
+                tags,
+                nontrivial: items.len() >= 2,
             }
         }
         _ => {
@@ -406,7 +468,7 @@ fn g_optcolor(rng: &mut Rng, p: u64) -> Value {
     }
 }
 fn g_face(rng: &mut Rng) -> Value {
-    json!({"fg": g_optcolor(rng, 50), "bg": g_optcolor(rng, 50), "ul": rng.below(6), "flags": rng.below(32)})
+    json!({"fg": g_optcolor(rng, 50), "bg": g_optcolor(rng, 50), "ul": if rng.chance(1, 12) { 6 + rng.below(2) } else { rng.below(6) }, "flags": rng.below(32)})
 }
 fn g_optbool(rng: &mut Rng, p: u64) -> Value {
     if rng.chance(p, 100) {
@@ -629,7 +691,32 @@ pub fn generate(rng: &mut Rng, n: usize, tier: &str) -> Vec<Value> {
     let fixed = v.len();
     // 6. random part
     while v.len() < fixed + n {
-        match rng.below(10) {
+        match rng.below(13) {
+            10 | 11 => {
+                // a stream through one encoder: faces, modifications (some empty), characters
+                let k = 2 + rng.below(9);
+                let mut cmds = vec![];
+                for _ in 0..k {
+                    cmds.push(match rng.below(6) {
+                        0 => json!({"face": g_face(rng)}),
+                        1 => json!({"m": g_modify(rng, 30)}),
+                        2 => json!({"m": empty_modify()}),
+                        3 => json!({"m": g_modify(rng, 10)}),
+                        _ => json!({"c": g_text(rng)[0]}),
+                    });
+                }
+                v.push(json!({"kind": "stream", "cmds": cmds, "cuts": rand_cuts(rng, 60)}));
+            }
+            12 => {
+                // a random character through the encoder (27 excluded: not in the property's domain)
+                let c = loop {
+                    let c = g_text(rng)[0];
+                    if c != 27 {
+                        break c;
+                    }
+                };
+                v.push(json!({"kind": "char", "c": c, "gs": [], "cuts": rand_cuts(rng, 4)}));
+            }
             0 => {
                 let m = g_modify(rng, 40);
                 let bytes_len = 40;
@@ -654,7 +741,7 @@ pub fn generate(rng: &mut Rng, n: usize, tier: &str) -> Vec<Value> {
                 let len = hist_bytes(&hist).len();
                 let mut c = json!({"kind": "write", "f0": g_face(rng), "hist": hist, "cuts": rand_cuts(rng, len), "malformed": true});
                 if known {
-                    c["known_class"] = json!(["sgr-inexpressible"]);
+                    c["inexpressible"] = json!(true);
                 }
                 v.push(c);
             }
@@ -664,7 +751,7 @@ pub fn generate(rng: &mut Rng, n: usize, tier: &str) -> Vec<Value> {
                 let f0 = if rng.chance(1, 2) { json!({"fg": null, "bg": null, "ul": 0, "flags": 0}) } else { g_face(rng) };
                 let mut c = json!({"kind": "write", "f0": f0, "hist": hist, "cuts": rand_cuts(rng, len)});
                 if known {
-                    c["known_class"] = json!(["sgr-inexpressible"]);
+                    c["inexpressible"] = json!(true);
                 }
                 v.push(c);
             }
